@@ -106,6 +106,9 @@ func (cc *clientCxn) RequestClose() {
 			cc.cxn.Close()
 		}
 		cc.queueStateChange(csTerminate, nil)
+
+		// a command that is blocked on this connection must stop waiting (and competing for list elements)
+		cc.cs.unblock("", false)
 	}
 }
 
